@@ -90,6 +90,16 @@ def run_check(pid, tier, seed, replay=None):
                 tool_failure = 'axiom audit failed to run: ' + str(audit_rep.get('raw', ''))[-400:]
             proofs_ok = False
 
+    # ---- step 3b (thorough): independent re-check of the compiled proof modules by leanchecker
+    if proofs_ok and tier == 'thorough':
+        from common import LakeLock, sh
+        with LakeLock():
+            rc_lc, out_lc = sh('lake env leanchecker ' + ' '.join(mod.PROP_MODULES), cwd=LEAN_DIR, timeout=3000)
+        report['leanchecker'] = 'ok' if rc_lc == 0 else out_lc[-400:]
+        if rc_lc != 0:
+            broken.append({'tie': 'audit', 'what': 'leanchecker rejects a compiled proof module', 'detail': out_lc[-400:]})
+            proofs_ok = False
+
     # ---- step 4: correspondence (implementation vs executable model)
     corr_ok = True
     if model_ok and not tool_failure:
@@ -183,6 +193,7 @@ def run_check(pid, tier, seed, replay=None):
         'stats': ctx.stats,
         'ties_broken': broken,
         'notes': ctx.notes,
+        'leanchecker': report.get('leanchecker', 'not run (quick tier)'),
         'clauses_proved': getattr(mod, 'PROVED', []),
         'clauses_hypothesis': getattr(mod, 'HYPOTHESES', []),
         'clauses_monitored_only': getattr(mod, 'MONITORED', []),
